@@ -134,6 +134,15 @@ func C13(c *Ctx) {
 	c.R.Rule("C13-R4", "E6", "rejection of unknown syntax, branching type, interpreter", 3)
 	c.R.Rule("C13-R5", "E3", "loaders compile before handing a spec out", 2)
 	c.R.Rule("C13-R6", "E6", "a loader of both representations decodes each with its own decoder", 1)
+	c.R.Rule("C13-R8", "E5", "canonical form is the JSON round trip, for every value", 1)
+	{
+		canon := c.P.Func("core", "", "Canonicalize")
+		if canon == nil {
+			c.R.Break("C13-R8: core.Canonicalize not found")
+		} else {
+			c.R.Check(c.canonFresh() != nil, "C13-R8", "Canonicalize: every result is what json.Unmarshal read from what json.Marshal wrote", c.P.Pos(canon.Pos()), "each non-nil result is the variable json.Unmarshal filled from the bytes json.Marshal produced in the same call", "Canonicalize can answer with something other than the JSON round trip of its argument (a direct copy, say): a Go value that JSON writes differently (a float32, a nil map, an integer) then differs between a specification built in Go and the same specification read from JSON or YAML")
+		}
+	}
 	c.R.Rule("C13-R7", "E6", "the copy of a specification that a store keeps carries every persisted field", 1)
 	if cp := c.P.Func("crew", "SpecSource", "Copy"); cp != nil {
 		ok, why := faithfulCopy(c, cp, 0)
